@@ -244,6 +244,8 @@ class Frame:
     def clone(self):
         f = Frame(self.fn, self.fid, dict(self.locals), self.ret_dest, self.ret_target, gen=self.gen)
         f.bb = self.bb
+        if getattr(self, "pure_stop", False):
+            f.pure_stop = True
         return f
 
 
@@ -682,7 +684,7 @@ class Executor:
                     continue
                 if t.kind == "return":
                     rv = fr.locals.get(0, UNIT)
-                    if len(stk) == 1:
+                    if len(stk) == 1 or getattr(fr, "pure_stop", False):
                         ends.append(PathEnd("done", z3.And(cnd) if cnd else z3.BoolVal(True), stk, info=rv))
                         break
                     dest, target = fr.ret_dest, fr.ret_target
@@ -871,6 +873,45 @@ class Executor:
             if len(live) == 1:
                 return ret(live[0][1])
             return ("fork", live)
+        if meth in ("and_then", "filter") and base.startswith("Option::"):
+            # Option combinators with a pure closure (the checked size arithmetic): evaluate the closure body on the side
+            opt, clo = args
+            if isinstance(clo, LocalRef):
+                clo = self._project(stk, clo, [("deref",)])
+            name = self.p.closures.get(clo.loc) if isinstance(clo, Closure) else None
+            if name is None or not isinstance(opt, Enum):
+                raise Unsupported("Option::%s with an unknown closure/value" % meth)
+            none_c = (opt.discr == 0) if not isinstance(opt.discr, int) else z3.BoolVal(opt.discr == 0)
+            outs = []
+            if not z3.is_false(z3.simplify(none_c)):
+                outs.append((none_c, Enum("Option", 0, {0: []})))
+            if 1 in opt.variants and not z3.is_true(z3.simplify(none_c)):
+                v = opt.variants[1][0]
+                fn = self.p.fn(name)
+                nf = Frame(fn, fr.fid + ((fr.fn.name, fr.bb), "pure"), {}, None, None, gen=list(fr.gen))
+                nf.locals[1] = clo
+                if meth == "filter":
+                    # the predicate takes &T: a reference to a scratch local of the closure frame
+                    nf.locals[900] = v
+                    nf.locals[2] = LocalRef(nf.fid, 900, [])
+                else:
+                    nf.locals[2] = v
+                nf.pure_stop = True
+                ends = self.run([f.clone() for f in stk] + [nf], [], stop_at_return=True)
+                for e in ends:
+                    if e.kind != "done":
+                        raise Unsupported("closure passed to Option::%s is not pure (%s)" % (meth, e.kind))
+                    g = z3.And(z3.Not(none_c), e.guard)
+                    if meth == "and_then":
+                        outs.append((g, e.info))
+                    else:
+                        b = e.info
+                        outs.append((z3.And(g, b), Enum("Option", 1, {1: [v]})))
+                        outs.append((z3.And(g, z3.Not(b)), Enum("Option", 0, {0: []})))
+            outs = [(c, val) for (c, val) in outs if not z3.is_false(z3.simplify(c))]
+            if len(outs) == 1:
+                return ret(outs[0][1])
+            return ("fork", outs)
         if meth == "from_residual":
             e = args[0]
             return ret(Enum("Result", 1, {1: [e.variants[1][0]]}))
